@@ -20,11 +20,16 @@ def pick_docs(ctx, cases, out):
     seen = set()
     # documents with a multi-line token (long string / long comment / code fence) first: range formatting strips and
     # re-applies indentation line by line, which is where such tokens are at risk
-    multi = [c for c in cases if "[[\n" in c["text"] or "```" in c["text"]]
+    multi = [c for c in cases if ("[[\n" in c["text"] or "```" in c["text"]) and not c["src"].startswith("ml/")]
     rest = [c for c in cases if c not in multi]
     for c in multi[: ctx.pick(3, 15)] + rest:
         o = out[c["id"]]
         if "in" not in o or c["text"] in seen:
+            continue
+        if c["src"].startswith("ml/"):
+            # FmtSelDocs.tla documents: editor-style selections (carets, token spans, whole lines), see FmtSel.tla
+            seen.add(c["text"])
+            docs.append({"case": c, "window": 0, "lines": True})
             continue
         n = len([t for t in o["in"] if t["k"] != "#Comment"])
         small = c["src"].startswith("gen") and 6 <= n <= max_tok and "\n" in c["text"].strip()
@@ -41,9 +46,27 @@ def pick_docs(ctx, cases, out):
     return docs
 
 
+def multiline_docs(ctx, first_id):
+    """FmtSelDocs.tla: every (wrapper, multi-line token form, continuation indent, line break, configuration)."""
+    res = vlib.tlc("FmtSelDocs", ctx.pick("FmtSelDocs_q", "FmtSelDocs_t"), workers=1, timeout=600)
+    ctx.add_tlc(res)
+    docs = [o for tg, o in res.json if tg == "DOC"]
+    if res.violated or len(docs) != res.distinct or not docs:
+        raise vlib.ToolError("FmtSelDocs: %d documents printed for %d states (%s)" % (len(docs), res.distinct, res.violated))
+    docs.sort(key=lambda o: o["src"])
+    ctx.note("multiline_token_documents", len(docs))
+    return [{"src": "ml/" + "/".join(o["src"]), "text": o["text"], "cfg": o["cfg"], "id": first_id + i} for i, o in enumerate(docs)]
+
+
+def line_starts(text):
+    b = text.encode("utf-8")
+    return [i + 1 for i in range(len(b) - 1) if b[i:i + 1] == b"\n" or (b[i:i + 1] == b"\r" and b[i + 1:i + 2] != b"\n")]
+
+
 def run(ctx):
     _fmt.selftest(ctx)
     cases = _fmt.gen_cases(ctx, n_single=ctx.pick(0, 300), n_sim=ctx.pick(120, 600), max_files=ctx.pick(0, 12))
+    cases += multiline_docs(ctx, len(cases))
     out = _fmt.run_formatter(ctx, cases)
     docs = pick_docs(ctx, cases, out)
     if not docs:
@@ -55,7 +78,8 @@ def run(ctx):
             c = d["case"]
             toks = [t for t in out[c["id"]]["in"] if t["k"] not in ("#Comment", "#Unparsed")]
             bounds = sorted({t["o"] for t in toks} | {t["o"] + len(t["t"].encode("utf-8")) for t in toks})
-            f.write(json.dumps({"id": c["id"], "len": len(c["text"].encode("utf-8")), "bounds": bounds, "window": d["window"]}) + "\n")
+            f.write(json.dumps({"id": c["id"], "len": len(c["text"].encode("utf-8")), "bounds": bounds, "window": d["window"],
+                                "lines": line_starts(c["text"]) if d.get("lines") else []}) + "\n")
     res = vlib.tlc("FmtSel", "FmtSel", workers=ctx.pick(2, 4), timeout=ctx.pick(600, 2400), env={"DOCS": path})
     ctx.add_tlc(res)
     sels = {}
